@@ -61,11 +61,16 @@ def all_formats(order: int):
     return out
 
 
-def build(stored: dict, dims, modes, ordering, fill=0.0):
+def build(stored: dict, dims, modes, ordering, fill=0.0, hollow=()):
     """Canonical (indices, vals) for the coordinate -> value map `stored` (dimension order keys).
 
     A coordinate is stored iff it is a key of `stored` or it lies under dense levels that must be
     filled (value `fill`).  Explicit zeros in `stored` are stored.
+
+    `hollow`: prefixes in LEVEL order (shorter than the order, ending at a compressed level whose next
+    level is compressed too) that are stored although nothing is stored beneath them - a coordinate
+    with an empty segment below.  Such a tensor is well formed (pos does not decrease) and is what
+    taco_structure_to_cffi / unpickling accept, but no from_* constructor produces it.
     """
     order = len(dims)
     assert len(modes) == order and len(ordering) == order
@@ -85,6 +90,9 @@ def build(stored: dict, dims, modes, ordering, fill=0.0):
             present = {}
             for key, _ in entries:
                 present.setdefault(key[:l], set()).add(key[l])
+            for h in hollow:
+                if len(h) > l:
+                    present.setdefault(tuple(h[:l]), set()).add(h[l])
             pos = [0]
             crd = []
             nxt = []
@@ -212,13 +220,13 @@ def stored_prefix_sets(dims, modes, ordering, indices):
 # ---------------------------------------------------------------------------------- tensora side
 
 
-def to_tensor(stored: dict, dims, modes, ordering):
+def to_tensor(stored: dict, dims, modes, ordering, hollow=()):
     """A tensora Tensor holding exactly `stored` (explicit zeros kept), through the documented
     low-level constructor taco_structure_to_cffi."""
     from tensora import Tensor
     from tensora.compile import taco_structure_to_cffi
 
-    indices, vals = build(stored, dims, modes, ordering)
+    indices, vals = build(stored, dims, modes, ordering, hollow=hollow)
     cffi_tensor = taco_structure_to_cffi(
         indices,
         vals,
